@@ -53,6 +53,7 @@ fn main() {
             let mut o = sim::world::RunOpts::default();
             o.log_net = true;
             o.record_trace = true;
+            o.same_random_stream = std::env::var("VERIF_SAME_RANDOM").is_ok();
             let out = sim::world::run(&sc, &o);
             let filt = args.get(2).cloned();
             for l in &out.net.trace {
